@@ -76,3 +76,37 @@ Proof.
   rewrite !Z.sub_0_r, !Z.add_0_r. rewrite Zplus_mod_idemp_l. replace (a - b + b) with a by lia. apply Z.mod_small. lia.
 Qed.
 
+(* flags of ADD / INC / DEC / NEG / the logic instructions *)
+Theorem add_flags p a b : 0 < p -> 0 <= a < 2 * p -> 0 <= b < 2 * p ->
+  let r := (a + b) mod (2 * p) in
+  let f := snd (alu ADD p a b false) in
+  fst (alu ADD p a b false) = Some r /\
+  (CF f = true <-> 2 * p <= a + b) /\
+  (OF f = true <-> ~ (- p <= tosigned p a + tosigned p b < p)) /\
+  (ZF f = true <-> r = 0) /\ (SF f = true <-> p <= r).
+Proof.
+  intros Hp Ha Hb. cbv zeta. unfold alu. cbn [fst snd CF OF ZF SF szp]. rewrite !Z.add_0_r.
+  split; [reflexivity|]. split; [apply Z.leb_le|]. split.
+  - rewrite negb_true_iff, andb_false_iff, Z.leb_gt, Z.ltb_ge. lia.
+  - split; [apply Z.eqb_eq|apply Z.leb_le].
+Qed.
+
+Theorem inc_dec_keep_carry p a cin : CF (snd (alu INC p a 0 cin)) = cin /\ CF (snd (alu DEC p a 0 cin)) = cin.
+Proof. split; reflexivity. Qed.
+
+Theorem logic_clears_carry_and_overflow p a b cin :
+  CF (snd (alu AND p a b cin)) = false /\ OF (snd (alu AND p a b cin)) = false /\
+  CF (snd (alu OR p a b cin)) = false /\ OF (snd (alu OR p a b cin)) = false /\
+  CF (snd (alu XOR p a b cin)) = false /\ OF (snd (alu XOR p a b cin)) = false /\
+  CF (snd (alu TEST p a b cin)) = false /\ OF (snd (alu TEST p a b cin)) = false.
+Proof. repeat split; reflexivity. Qed.
+
+Theorem neg_flags p a : 0 < p -> 0 <= a < 2 * p ->
+  (CF (snd (alu NEG p a 0 false)) = true <-> a <> 0) /\ (OF (snd (alu NEG p a 0 false)) = true <-> a = p) /\
+  fst (alu NEG p a 0 false) = Some ((- a) mod (2 * p)).
+Proof.
+  intros Hp Ha. unfold alu. cbn [fst snd CF OF szp]. rewrite !Z.sub_0_r. split; [rewrite Z.ltb_lt; lia|]. split.
+  - rewrite negb_true_iff, andb_false_iff, Z.leb_gt, Z.ltb_ge. unfold tosigned.
+    replace (p <=? 0) with false by (symmetry; apply Z.leb_gt; lia). destruct (Z.leb_spec p a); lia.
+  - unfold wrap2. f_equal.
+Qed.
